@@ -1,7 +1,11 @@
 #!/usr/bin/env python3
-"""Input generator for the parser-side differential test (fixed seed).
+"""Input generator for the parser-side differential test.
 
-Prints one hex-encoded input per line.  Families:
+usage: gen.py [--seed N] [--size N] [--no-sweeps]
+Prints one hex-encoded input per line.  Every random choice comes from the one
+PRNG `rnd`, seeded with --seed (VERIF_SEED); --size is the number of random
+inputs (55% family A, 45% byte mutations), the systematic sweeps (families B,
+C and the near-miss lists of D) are always produced.  Families:
   A  grammar-directed random paths (every node kind), rendered with random
      spelling alternatives: whitespace/comments, keyword case, bare / quoted /
      escaped keys, every escape form, every number form, != vs <>, redundant
@@ -20,6 +24,10 @@ import sys
 
 rnd = random.Random(20260925)
 out = []
+
+
+def reseed(seed):
+    rnd.seed(int(seed))
 
 
 def emit(s):
@@ -333,8 +341,10 @@ def path(depth):
 
 
 # ---------------------------------------------------------------- family A
-for _ in range(9000):
-    emit(path(rnd.choice([1, 2, 2, 3, 3, 4])))
+def family_a(n):
+    for _ in range(n):
+        emit(path(rnd.choice([1, 2, 2, 3, 3, 4])))
+
 
 # ---------------------------------------------------------------- family B
 OPS = ARITH + CMP + ["&&", "||", "starts with", "like_regex"]
@@ -346,56 +356,65 @@ def atom():
     return rnd.choice(ATOMS)
 
 
-for o1 in OPS:
-    for o2 in OPS:
-        emit("$ ? (%s %s %s %s %s)" % ("@.a", o1, '"b"' if o1 in ("starts with", "like_regex") else "@.b",
-                                       o2, '"c"' if o2 in ("starts with", "like_regex") else "@.c"))
-        emit("%s %s %s %s %s" % ("1", o1, '"b"' if o1 in ("starts with", "like_regex") else "2", o2,
-                                 '"c"' if o2 in ("starts with", "like_regex") else "3"))
-        for _ in range(2):
-            emit("%s %s %s %s %s" % (atom(), o1, atom(), o2, atom()))
-for o1 in OPS:
-    for o2 in OPS:
-        for o3 in rnd.sample(OPS, 6):
-            a = [atom() for _ in range(4)]
-            emit("%s %s %s %s %s %s %s" % (a[0], o1, a[1], o2, a[2], o3, a[3]))
-            emit("$ ? (%s %s (%s %s %s) %s %s)" % (a[0], o1, a[1], o2, a[2], o3, a[3]))
-for u in ["-", "+", "!", "- -", "+ -", "-+", "--", "! !"]:
+def family_b():
     for o1 in OPS:
-        emit("%s1 %s 2" % (u, o1))
-        emit("%s(1 %s 2)" % (u, o1))
-        emit("%s(1 %s 2).abs()" % (u, o1))
-        emit("%s$.a %s $.b.c" % (u, o1))
-        emit("1 %s %s2" % (o1, u))
+        for o2 in OPS:
+            emit("$ ? (%s %s %s %s %s)" % ("@.a", o1, '"b"' if o1 in ("starts with", "like_regex") else "@.b",
+                                           o2, '"c"' if o2 in ("starts with", "like_regex") else "@.c"))
+            emit("%s %s %s %s %s" % ("1", o1, '"b"' if o1 in ("starts with", "like_regex") else "2", o2,
+                                     '"c"' if o2 in ("starts with", "like_regex") else "3"))
+            for _ in range(2):
+                emit("%s %s %s %s %s" % (atom(), o1, atom(), o2, atom()))
+    for o1 in OPS:
+        for o2 in OPS:
+            for o3 in rnd.sample(OPS, 6):
+                a = [atom() for _ in range(4)]
+                emit("%s %s %s %s %s %s %s" % (a[0], o1, a[1], o2, a[2], o3, a[3]))
+                emit("$ ? (%s %s (%s %s %s) %s %s)" % (a[0], o1, a[1], o2, a[2], o3, a[3]))
+    for u in ["-", "+", "!", "- -", "+ -", "-+", "--", "! !"]:
+        for o1 in OPS:
+            emit("%s1 %s 2" % (u, o1))
+            emit("%s(1 %s 2)" % (u, o1))
+            emit("%s(1 %s 2).abs()" % (u, o1))
+            emit("%s$.a %s $.b.c" % (u, o1))
+            emit("1 %s %s2" % (o1, u))
+
 
 # ---------------------------------------------------------------- family C
 # escapes in identifiers and strings
 SAMPLE_CHARS = "aZ0_$ \"\\/\b\f\n\r\t\v\x01\x7fé\u212a\u0130λ\ufffd😀\U0010ffff"
-for ch in SAMPLE_CHARS:
-    o = ord(ch)
-    forms = ["\\u%04x" % o if o < 0x10000 else None, "\\u%04X" % o if o < 0x10000 else None,
-             "\\u{%x}" % o, "\\u{%X}" % o, "\\u{%06X}" % o, "\\u{0%x}" % o,
-             "\\x%02x" % o if o < 256 else None, "\\x%02X" % o if o < 256 else None, "\\" + ch]
-    if o >= 0x10000:
-        v = o - 0x10000
-        hi, lo = 0xD800 + (v >> 10), 0xDC00 + (v & 0x3FF)
-        forms += ["\\u%04x\\u%04x" % (hi, lo), "\\u%04X\\u%04X" % (hi, lo), "\\u{%x}\\u{%x}" % (hi, lo),
-                  "\\u%04x" % hi, "\\u%04x" % lo, "\\u%04x\\u%04x" % (lo, hi), "\\u%04x\\n" % hi,
-                  "\\u%04x\\x41" % hi, "\\u%04xA" % hi, "\\u%04x\\u0041" % hi]
-    for f in forms:
-        if f is None:
-            continue
-        for tmpl in ['$."%s"', '$.%s', '$.a%s', '$.%sb', '$.a%sb', '"%s"', '$"%s"', '$.a%s', '$ ? (@ == "%sx")',
-                     '$.%s.b', '$.%s[0]', '$.%s ']:
-            emit(tmpl % f)
-for e in ["\\", "\\x", "\\x4", "\\x4g", "\\xg4", "\\x00", "\\u", "\\u0", "\\u00", "\\u004", "\\u004g", "\\u0000",
+def family_c_chars():
+    for ch in SAMPLE_CHARS:
+        o = ord(ch)
+        forms = ["\\u%04x" % o if o < 0x10000 else None, "\\u%04X" % o if o < 0x10000 else None,
+                 "\\u{%x}" % o, "\\u{%X}" % o, "\\u{%06X}" % o, "\\u{0%x}" % o,
+                 "\\x%02x" % o if o < 256 else None, "\\x%02X" % o if o < 256 else None, "\\" + ch]
+        if o >= 0x10000:
+            v = o - 0x10000
+            hi, lo = 0xD800 + (v >> 10), 0xDC00 + (v & 0x3FF)
+            forms += ["\\u%04x\\u%04x" % (hi, lo), "\\u%04X\\u%04X" % (hi, lo), "\\u{%x}\\u{%x}" % (hi, lo),
+                      "\\u%04x" % hi, "\\u%04x" % lo, "\\u%04x\\u%04x" % (lo, hi), "\\u%04x\\n" % hi,
+                      "\\u%04x\\x41" % hi, "\\u%04xA" % hi, "\\u%04x\\u0041" % hi]
+        for f in forms:
+            if f is None:
+                continue
+            for tmpl in ['$."%s"', '$.%s', '$.a%s', '$.%sb', '$.a%sb', '"%s"', '$"%s"', '$.a%s', '$ ? (@ == "%sx")',
+                         '$.%s.b', '$.%s[0]', '$.%s ']:
+                emit(tmpl % f)
+
+ESCS = ["\\", "\\x", "\\x4", "\\x4g", "\\xg4", "\\x00", "\\u", "\\u0", "\\u00", "\\u004", "\\u004g", "\\u0000",
           "\\u{", "\\u{}", "\\u{0}", "\\u{000000}", "\\u{g}", "\\u{41", "\\u{0000041}", "\\u{110000}",
           "\\u{10ffff}", "\\u{ffffff}", "\\u{d800}", "\\u{dc00}\\u{d800}", "\\ud83d", "\\ud83d\\", "\\ud83d\\u",
           "\\ud83d\\ude", "\\ude00\\ud83d", "\\ud83d\\ud83d", "\\ud83d\\x41", "\\a", "\\0", "\\'", "\\\"", "\\/",
-          "\\e", "\\U0001F600", "\\N", "\\\n", "\\é", "\\😀", "\\ ", "\\$", "\\_"]:
-    for tmpl in ['"%s"', '$.%s', '$.a%s', '$."%s"', '$"%s"', '"%sz"', '$.%sz', '$.a%s.b', '"a%s']:
-        emit(tmpl % e)
-# numbers
+          "\\e", "\\U0001F600", "\\N", "\\\n", "\\é", "\\😀", "\\ ", "\\$", "\\_"]
+
+
+def family_c_escapes():
+    for e in ESCS:
+        for tmpl in ['"%s"', '$.%s', '$.a%s', '$."%s"', '$"%s"', '"%sz"', '$.%sz', '$.a%s.b', '"a%s']:
+            emit(tmpl % e)
+    # numbers
+
 NUMS = ["0", "00", "01", "0_1", "0x", "0x_1", "0x1_", "0x1__2", "0X1f", "0xg", "0o", "0o8", "0o17", "0O7", "0b", "0b2",
         "0b101", "0B1_0", "1_000", "1__0", "1_", "_1", "1e", "1e+", "1e5", "1E5", "1e+5", "1e-5", "1e5_0", "1e_5",
         "1_e5", "1.", "1.5", "1._5", "1_.5", "1.5_", ".5", ".5e1", "._5", "5.", "5.e1", "0.5", "0.e1", "0e1", "0e",
@@ -406,26 +425,28 @@ NUMS = ["0", "00", "01", "0_1", "0x", "0x_1", "0x1_", "0x1__2", "0X1f", "0xg", "
         "1e400", "-1e400", "123456789.123456789e-5", "0.1e1", "1.0", "4.0", "1e20", "1e21", "100000000000000000000.0",
         "1.5e300", "1.e+5", "0x10", "0b11", "0o17", "1_0", "1_0.5", "0.0", "-0.0", "- -0.0", "-0", "+0", "+ +1",
         "+-1", "-+1", "- - -1", "-(1)", "-(1.5)", "-(-1)", "+(1)", "-(1).abs()", "- 1 .abs()", "-1 .abs()"]
-for n in NUMS:
-    for tmpl in ["%s", "$[%s]", "$.a == %s", "%s + 1", "1 - %s", "(%s).abs()", "%s.abs()", "%s .abs()", "$.**{%s}",
-                 "$.decimal(%s)", "$.time(%s)", "%s)", "%s]", "%s,", "%s\"", "%s$", "%s_", "%s\\", "%s/**/", "%s é"]:
-        emit(tmpl % n)
-# keyword case
-for k in KEYWORDS:
-    variants = {k, k.upper(), k.capitalize(), k[:-1] + k[-1].upper(), k.replace("k", "\u212a"),
-                k.replace("i", "\u0130"), k.replace("s", "\u017f"), k.replace("i", "\u0131")}
-    for v in variants:
-        for tmpl in ["$.%s", "$.%s()", "$.%s(1)", "%s", "%s $", "$ %s $", "$[1 %s 2]", "$ ? (@ %s \"a\")",
-                     "$ ? ((@ == 1) %s unknown)", "$.a ? (@ starts %s \"a\")", "$.**{%s}", "$.%s .x",
-                     "$ ? (@ like_regex \"a\" %s \"i\")", "$[%s]", "$ ? (%s(@))", "$ ? (%s)"]:
-            emit(tmpl % v)
-# private-use code points that collide with goyacc token numbers
-for cp in range(0xE000, 0xE034):
-    c = chr(cp)
-    for tmpl in ["%s", "$%s", "$.%s", "$ %s $", "$[1 %s 2]", "$[%s]", "$ ? (@ %s 1)", "%s $.a", "$ ? (@ %s \"a\")",
-                 "$.a%s", "$.x%s()", "$.**{%s}", "1 %s 2", "%s%s", "$ == %s", "$.decimal(%s)", "$ ? (%s(@))",
-                 "$ ? ((@ == 1) %s)", "\"%s\"", "$.\"%s\"", "/*%s*/$"]:
-        emit(tmpl.replace("%s", c))
+def family_c_rest():
+    for n in NUMS:
+        for tmpl in ["%s", "$[%s]", "$.a == %s", "%s + 1", "1 - %s", "(%s).abs()", "%s.abs()", "%s .abs()", "$.**{%s}",
+                     "$.decimal(%s)", "$.time(%s)", "%s)", "%s]", "%s,", "%s\"", "%s$", "%s_", "%s\\", "%s/**/", "%s é"]:
+            emit(tmpl % n)
+    # keyword case
+    for k in KEYWORDS:
+        variants = {k, k.upper(), k.capitalize(), k[:-1] + k[-1].upper(), k.replace("k", "\u212a"),
+                    k.replace("i", "\u0130"), k.replace("s", "\u017f"), k.replace("i", "\u0131")}
+        for v in sorted(variants):
+            for tmpl in ["$.%s", "$.%s()", "$.%s(1)", "%s", "%s $", "$ %s $", "$[1 %s 2]", "$ ? (@ %s \"a\")",
+                         "$ ? ((@ == 1) %s unknown)", "$.a ? (@ starts %s \"a\")", "$.**{%s}", "$.%s .x",
+                         "$ ? (@ like_regex \"a\" %s \"i\")", "$[%s]", "$ ? (%s(@))", "$ ? (%s)"]:
+                emit(tmpl % v)
+    # private-use code points that collide with goyacc token numbers
+    for cp in range(0xE000, 0xE034):
+        c = chr(cp)
+        for tmpl in ["%s", "$%s", "$.%s", "$ %s $", "$[1 %s 2]", "$[%s]", "$ ? (@ %s 1)", "%s $.a", "$ ? (@ %s \"a\")",
+                     "$.a%s", "$.x%s()", "$.**{%s}", "1 %s 2", "%s%s", "$ == %s", "$.decimal(%s)", "$ ? (%s(@))",
+                     "$ ? ((@ == 1) %s)", "\"%s\"", "$.\"%s\"", "/*%s*/$"]:
+            emit(tmpl.replace("%s", c))
+
 
 # ---------------------------------------------------------------- family D
 NEAR = ["@", "@.a", "$ ? (@ == 1).b ? (@ > 1)", "$.a ? (@ == 1) == @", "last", "$[last]", "$[0 to last]",
@@ -463,12 +484,15 @@ NEAR = ["@", "@.a", "$ ? (@ == 1).b ? (@ > 1)", "$.a ? (@ == 1) == @", "last", "
         "1 =! 1", "1 ! = 1", "1 < = 1", "1 <> 1", "1 >< 1", "1 => 1", "1 =< 1", "1 & & 1", "!", "!=", "~", "`", "'a'",
         "$['a']", "$[\"a\"]", "$.a[\"b\"]", "{", "}", "$.a{1}", ";", ":", "\\", "\\a", "_", "_a", "a", "a.b", "true",
         "TRUE", "True", "null", "NULL", "false", "$.true", "$.NULL", "true == TRUE", "$ == null", "$.a == Null"]
-for s in NEAR:
-    emit(s)
-    emit(" " + s + " ")
-    emit("strict " + s)
-    emit("$.x ? (" + s + ")")
-    emit("(" + s + ")")
+
+def family_d_near():
+    for s in NEAR:
+        emit(s)
+        emit(" " + s + " ")
+        emit("strict " + s)
+        emit("$.x ? (" + s + ")")
+        emit("(" + s + ")")
+
 # invalid UTF-8 / NUL in every kind of position
 BAD = [b"\x00", b"\x80", b"\xc0\x80", b"\xc3", b"\xe2\x82", b"\xed\xa0\x80", b"\xf4\x90\x80\x80", b"\xff",
        b"\xf8\x88\x80\x80\x80", b"\xef\xbf\xbd", b"\xc3\xa9", b"\xe0\x80\x80", b"\xf0\x80\x80\x80"]
@@ -477,9 +501,12 @@ CTX = [b"%s", b"$%s", b"$.%s", b"$.a%s", b"$.a%sb", b"\"%s\"", b"\"a%s", b"$\"%s
        b"$ =%s", b"$ <%s", b"$ >%s 1", b"$ !%s", b"$ &%s", b"$ *%s", b"$.*%s", b"$ /%s", b"$ .%s", b"$a%s", b"$ $%s",
        b"$ ? (@ like_regex \"a\" %s", b"$ ? (@ like_regex \"(\" %s", b"9223372036854775808 %s", b"1e400%s",
        b"$.decimal(1,2,3) %s", b"1a %s 9223372036854775808", b"%s 9223372036854775808"]
-for b in BAD:
-    for c in CTX:
-        emit(c.replace(b"%s", b))
+
+def family_d_bad():
+    for b in BAD:
+        for c in CTX:
+            emit(c.replace(b"%s", b))
+
 
 
 def mutate(b):
@@ -503,16 +530,59 @@ def mutate(b):
     return bytes(b)
 
 
-seeds = [path(rnd.choice([1, 2, 3])).encode("utf-8", "surrogatepass") for _ in range(700)]
-seeds += [s.encode() for s in NEAR if s]
-for _ in range(7000):
-    emit(mutate(rnd.choice(seeds)))
+def family_d_mut(n):
+    if n <= 0:
+        return
+    seeds = [path(rnd.choice([1, 2, 3])).encode("utf-8", "surrogatepass") for _ in range(max(50, n // 10))]
+    seeds += [s.encode() for s in NEAR if s]
+    for _ in range(n):
+        emit(mutate(rnd.choice(seeds)))
 
-seen = set()
-for s in out:
-    if b"\n" in s or True:
-        h = s.hex()
-        if h in seen:
+
+def dedup(items):
+    seen = set()
+    res = []
+    for s in items:
+        if s in seen:
             continue
-        seen.add(h)
-        print(h)
+        seen.add(s)
+        res.append(s)
+    return res
+
+
+def generate(seed, size=16000, sweeps=True):
+    """the inputs of the tie leg, as a list of distinct byte strings"""
+    reseed(seed)
+    del out[:]
+    family_a(int(size * 0.55))
+    if sweeps:
+        family_b()
+        family_c_chars()
+        family_c_escapes()
+        family_c_rest()
+        family_d_near()
+        family_d_bad()
+    family_d_mut(size - int(size * 0.55))
+    res = dedup(out)
+    del out[:]
+    return res
+
+
+def collect(f, *args):
+    """run one family function and return what it emitted"""
+    del out[:]
+    f(*args)
+    res = list(out)
+    del out[:]
+    return res
+
+
+if __name__ == "__main__":
+    import argparse
+    ap = argparse.ArgumentParser()
+    ap.add_argument("--seed", type=int, default=1)
+    ap.add_argument("--size", type=int, default=16000)
+    ap.add_argument("--no-sweeps", action="store_true")
+    a = ap.parse_args()
+    for s in generate(a.seed, a.size, not a.no_sweeps):
+        print(s.hex())
